@@ -137,10 +137,22 @@ def job_elastic(cfg):
         err_u = float(np.abs(uf - exact).max())
         grad = af[:, 1:]
         eps = 0.5 * (grad + grad.T)
+        # same sequence of queries as the symbolic run: Strain, then Stress, then Wdef_e
         E = s2.Result("Strain", nodeValues=False)
+        Sg = s2.Result("Stress", nodeValues=False)
+        W = s2.Result("Wdef_e", nodeValues=False)
         comps = [eps[0, 0], eps[1, 1], eps[0, 1]] if dim == 2 else [eps[0, 0], eps[1, 1], eps[2, 2], eps[1, 2], eps[0, 2], eps[0, 1]]
         err_e = float(np.abs(E - np.array(comps)[None, :]).max())
-        return max(err_u, err_e) > 1e-8, {"field_coefficients": af.tolist(), "max_error_displacement": err_u, "max_error_strain": err_e}
+        Cf = np.asarray(s2.material.C, dtype=float)
+        kmf = np.array([cc if i < dim else cc * np.sqrt(2) for i, cc in enumerate(comps)])
+        sg_km = Cf @ kmf
+        sg = np.array([v if i < dim else v / np.sqrt(2) for i, v in enumerate(sg_km)])
+        err_s = float(np.abs(Sg - sg[None, :]).max() / (np.abs(Cf).max()))
+        meas = float(s2.mesh.area if dim == 2 else s2.mesh.volume)
+        th = float(s2.material.thickness) if dim == 2 else 1.0
+        err_w = float(abs(W.sum() - 0.5 * kmf @ sg_km * meas * th) / (np.abs(Cf).max() * meas))
+        return max(err_u, err_e, err_s, err_w) > 1e-8, {"field_coefficients": af.tolist(), "max_error_displacement": err_u, "max_error_strain": err_e,
+                                                       "max_rel_error_stress": err_s, "rel_error_energy": err_w, "query_sequence": ["Strain", "Stress", "Wdef_e"]}
 
     # (a) every interior dof reproduces the field
     for n in interior:
